@@ -34,10 +34,12 @@ class Symbols:
 
 
 def tokenize(txt, included=True, replace_tags=None):
-    txt = pp.preprocess(txt, included=included)
-
+    # protect nowiki/pre/math/... first: <noinclude>, <includeonly> and <onlyinclude>
+    # inside a protected region are literal text
     if replace_tags is not None:
         txt = replace_tags(txt)
+
+    txt = pp.preprocess(txt, included=included)
 
     tokens = []
     for token_type_1, token_type_2, token_type_3, token_type_4, token_type_5 in split_rx.findall(txt):
